@@ -361,6 +361,8 @@ def catalogue(g):
                                       "N(context.Context, string, string, int, int, []byte, []byte, error, error, float64, float64) error"])
     add("method.qualifier-param-before-late-import", ["R(http string, a int, b int, c string, d string, e bool, f bool, g []int, h []int, req *http.Request) (io int, r io.Reader)"])
     add("method.name-String-Error", ["String() string", "Error() string"])
+    # method names that are also promoted methods of the embedded testify mock.Mock but not part of the mocks' documented API (they work today)
+    add("method.name-like-promoted-mock-method", ["Test(v any) bool", "On(s string) error", "TestData() int"])
     add("method.name-lowercase-exported-mix", ["Exported()", "unexported(x int) string"] if g.allow_unexported else ["Exported()", "AlsoExported(x int) string"])
     # ---- identifiers
     for nm in PREDECLARED:
